@@ -142,6 +142,11 @@ def scenarios() -> list[tuple]:
         # arrives on each open outside socket until the deadline
         for ph in (("transfer", 0), ("first-data", 0)):
             out.append((h, "offline+chatty", ph))
+        # the first hop is itself an exit and carries data of the half-built circuit (its exit entry opens its outside
+        # sockets) before the circuit is extended through it and it becomes a relay
+        if h >= 2:
+            for ini in ("O", "offline"):
+                out.append((h, f"{ini}+halfdata", ("ready", 0)))
         # a host name that does not resolve: the resolver's failure is reported k loop iterations after the removal delay
         # of the exit entry ran out (k = 0: in the very iteration in which the exit entry is closed)
         if h <= 2:
@@ -166,6 +171,8 @@ def run_one(scn: tuple, faults: dict[int, str], seed: int):  # noqa: ANN201
     if busy and busy.startswith("busy-legacy"):
         w = TunnelWorld(("c09", seed, scn), {**ROLES, "L": EXIT_ALL}, key_offset=seed,
                         curves={"L": busy.split(":")[1]})
+    elif busy == "halfdata":
+        w = TunnelWorld(("c09", seed, scn), {**ROLES, "R1": EXIT_ALL}, key_offset=seed)
     elif ini.startswith("deadalt"):
         w = TunnelWorld(("c09", seed, scn), {**ROLES, "A1": RELAY}, key_offset=seed)
     else:
@@ -204,6 +211,14 @@ def run_one(scn: tuple, faults: dict[int, str], seed: int):  # noqa: ANN201
         else:
             c = w.start_circuit("O", path)
         cid = c.circuit_id
+        if busy == "halfdata":
+            w.deliver(0)          # create reaches the first hop
+            w.deliver(0)          # created reaches the originator (its extend is now in flight)
+            assert len(c.hops) == 1, "first hop not confirmed"
+            held, w.inflight[:] = list(w.inflight), []
+            w.send_out("O", c, ("9.9.9.9", 99), BT_PAYLOAD)      # exits at the first hop: one layer, one hop
+            w.flush()
+            w.inflight.extend(held)                               # now the extension goes on
         if phase == "build":
             for _ in range(k):
                 if not w.inflight:
@@ -224,7 +239,7 @@ def run_one(scn: tuple, faults: dict[int, str], seed: int):  # noqa: ANN201
         if busy:
             for name in path:
                 o = ov[name]
-                if busy in ("chatty", "noipv6", "wanting") or busy.startswith("dnsfail"):
+                if busy in ("chatty", "noipv6", "wanting", "halfdata") or busy.startswith("dnsfail"):
                     continue
                 if busy == "busy":
                     o.candidates.clear()        # knows nobody it could build through ...
